@@ -78,6 +78,34 @@ def generate(tier, seed):
     for k in range(10):
         m1 = sorted(int(v) for v in rng.choice(3, size=int(rng.integers(1, 3)), replace=False))
         add('line', 'MeshLine1', p, t, [m1], [['adapt', [0, 2, 3]], ['refine', 1], ['adapt', [1, 5]]])
+    # the same object used twice (earlier results discarded), oriented / non-ascending connectivity
+    for dg in ((0, 1, 1, 0), (1, 0, 0, 1)):
+        p, t = U.tri_lattice(2, 2, dg)
+        for k in range(12 if thorough else 4):
+            m1 = sorted(int(v) for v in rng.choice(8, size=int(rng.integers(1, 5)), replace=False))
+            m2 = sorted(int(v) for v in rng.choice(8, size=int(rng.integers(1, 5)), replace=False))
+            base = tagged('tri', 'MeshTri1', p, t, rng, nbnd=1)
+            for ops in ([['side', ['facets', 0]], ['side', ['adapt', m1]], ['adapt', m2]],
+                        [['side', ['facets', 0]], ['side', ['refine', 1]], ['adapt', m2]],
+                        [['oriented', 0], ['adapt', m1], ['adapt', m2]]):
+                r = dict(base)
+                r['ops'] = ops
+                recs.append(r)
+        t2 = U.apply_local_orders('tri', np.asarray(t), rng)
+        b2 = tagged('tri', 'MeshTri1', p, t2, rng, nbnd=1)
+        b2['sort_t'] = False
+        for s in all_subsets(8, rng, 12):
+            r = dict(b2)
+            r['ops'] = [['adapt', [int(v) for v in s]]]
+            recs.append(r)
+    p, t = U.tet_cubes(1, 6)
+    for k in range(6 if thorough else 2):
+        m1 = sorted(int(v) for v in rng.choice(6, size=2, replace=False))
+        base = tagged('tet', 'MeshTet1', p, t, rng, nbnd=1)
+        for ops in ([['side', ['facets', 0]], ['side', ['adapt', m1]], ['adapt', [0, 4]]], [['oriented', 0], ['adapt', m1]]):
+            r = dict(base)
+            r['ops'] = ops
+            recs.append(r)
     # tetrahedra: one cube, every marked subset
     for split in (6, 5):
         p, t = U.tet_cubes(1, split)
